@@ -345,7 +345,7 @@ class C11(HostProp):
     assumptions = ["the assembler is its own reference for image/origin/name: the property is about the glue through the process and file seams"]
 
     def budget(self, tier):
-        return 600 if tier == "quick" else 18_000
+        return 3000 if tier == "quick" else 60_000
 
     def generate(self, rng, tier, i):
         ops = []
